@@ -30,7 +30,7 @@ const ASYNC_FLUSHER: &str = "flexi_logger-fs-async_flusher";
 
 #[cfg(feature = "async")]
 use {
-    crate::util::{ASYNC_FLUSH, ASYNC_SHUTDOWN},
+    crate::util::{ASYNC_DATA, ASYNC_FLUSH, ASYNC_SHUTDOWN},
     crossbeam_channel::Sender as CrossbeamSender,
     crossbeam_queue::ArrayQueue,
 };
@@ -792,11 +792,12 @@ pub(super) fn start_async_fs_writer(
                                     state.shutdown();
                                     break;
                                 }
-                                _ => {
-                                    state.write_buffer(&message).unwrap_or_else(|e| {
+                                [ASYNC_DATA, data @ ..] => {
+                                    state.write_buffer(data).unwrap_or_else(|e| {
                                         eprint_err(ErrorCode::Write, "writing failed", &e);
                                     });
                                 }
+                                _ => { /* no such message is ever sent */ }
                             }
                             if message.capacity() <= message_capa {
                                 message.clear();
